@@ -1216,6 +1216,7 @@ pub fn run(ctx: &RunCtx) -> Vec<PartOutcome> {
         explore_with(ctx, "pipelines", ctx.tier.pick(1_500, 25_000), 300, pipe_strat, check_pipeline),
         explore_with(ctx, "bursts_parallel", ctx.tier.pick(1_000, 20_000), 12, burst_strat, check_burst_mt),
         explore_with(ctx, "counters_parallel", ctx.tier.pick(48, 800), 8, counters_strat, check_counters_mt),
+        explore_with(ctx, "teardown_under_load", ctx.tier.pick(16, 160), 4, counters_strat, check_teardown_under_load),
     ]
 }
 
@@ -1226,6 +1227,7 @@ pub fn replay(part: &str, input: &Value) -> Option<Result<Result<(), Viol>, Stri
         "pipelines" => Some(replay_input::<PipeCase>(input, check_pipeline)),
         "bursts_parallel" => Some(replay_input::<BurstCase>(input, check_burst_mt)),
         "counters_parallel" => Some(replay_input::<CounterCase>(input, check_counters_mt)),
+        "teardown_under_load" => Some(replay_input::<CounterCase>(input, check_teardown_under_load)),
         _ => None,
     }
 }
@@ -1339,6 +1341,80 @@ fn check_counters_mt(c: &CounterCase, st: &mut Stats) -> Result<(), Viol> {
                 format!("{} connections sent {} x `{}` each at the same time ({} worker threads); STATS m shows {} grown by {} instead of {}", senders, per, vline, workers, k, got, want),
             ));
         }
+    }
+    Ok(())
+}
+
+// ------------------------------------------------------------- (f) session end under load
+// A session that ends while the state lock is busy for a long time (many OPER attempts, each of
+// which verifies an Argon2 hash under the write lock, queue ahead of it) is still cleaned up:
+// once the load is over nobody finds the departed user any more.
+fn check_teardown_under_load(c: &CounterCase, st: &mut Stats) -> Result<(), Viol> {
+    let mut s = S::new(&c.seeds);
+    s.raw();
+    let workers = [2usize, 4, 8][s.pick(3)];
+    let mut cfg = CfgSpec::default();
+    cfg.opers.push(OperSpec { name: "op0".into(), password: "operpw0".into(), mask: None });
+    let mut w = MtWorld::new(cfg.to_main_config(), workers);
+    // the lock queue is FIFO and every connection has one command in flight: to keep the lock
+    // busy for seconds ahead of the teardown it takes many connections
+    let nconn = 40 + s.pick(40);
+    for i in 0..nconn {
+        let cc = w.connect();
+        if !mt_line_barrier(&mut w, cc, &format!("NICK n{}\r\nUSER u{} 0 * :Real n{}", i, i, i), &format!("reg{}", i)) {
+            st.count("inconclusive_realtime_wait");
+            return Ok(());
+        }
+    }
+    if !mt_line_barrier(&mut w, 0, "JOIN #load", "j0") || !mt_line_barrier(&mut w, 1, "JOIN #load", "j1") {
+        st.count("inconclusive_realtime_wait");
+        return Ok(());
+    }
+    let per = 2 + s.pick(2);
+    let mut blob = String::new();
+    for _ in 0..per {
+        blob += "OPER op0 not-the-password\r\n";
+    }
+    let t0 = std::time::Instant::now();
+    for cc in 1..nconn {
+        w.send_bytes(cc, blob.as_bytes());
+    }
+    let how = ["QUIT :leaving under load", "drop"][s.pick(2)];
+    if how == "drop" {
+        w.conns[0].io = None;
+    } else {
+        w.send_bytes(0, format!("{}\r\n", how).as_bytes());
+    }
+    // everybody finishes its OPER attempts (long patience: this is real time)
+    for cc in 1..nconn {
+        w.send_bytes(cc, format!("PING load{}\r\n", cc).as_bytes());
+    }
+    for cc in 1..nconn {
+        let tok = format!(":load{}", cc);
+        if !w.read_until(cc, Duration::from_secs(60), &move |ls: &[String]| ls.iter().any(|l| l.contains(" PONG ") && l.ends_with(&tok))) {
+            st.count("inconclusive_realtime_wait");
+            return Ok(());
+        }
+    }
+    let busy_ms = t0.elapsed().as_millis();
+    // give the departed connection's task time to finish, then ask
+    std::thread::sleep(Duration::from_millis(300));
+    let start = w.conns[1].lines.len();
+    if !mt_line_barrier(&mut w, 1, "ISON n0 n1 n2 n3\r\nNAMES #load", "after") {
+        st.count("inconclusive_realtime_wait");
+        return Ok(());
+    }
+    let lines: Vec<String> = w.conns[1].lines[start..].to_vec();
+    let ison = lines.iter().find(|l| l.contains(" 303 ")).cloned().unwrap_or_default();
+    let names = lines.iter().find(|l| l.contains(" 353 ")).cloned().unwrap_or_default();
+    st.nontrivial(format!("{}|w{}|{}|{}", how.split(' ').next().unwrap_or(""), workers, per / 6, (busy_ms / 500).min(6)), || json!({"oper_attempts_per_connection": per, "connections": nconn - 1, "lock_busy_ms": busy_ms as u64, "end": how}));
+    let listed = |l: &str, n: &str| l.rsplit(':').next().unwrap_or("").split(' ').any(|x| x.trim_start_matches(|c| "~&@%+".contains(c)) == n);
+    if listed(&ison, "n0") || listed(&names, "n0") {
+        return Err(Viol::new(
+            "C18.session_end_under_load",
+            format!("ghost-under-load:{}", how.split(' ').next().unwrap_or("")),
+            format!("n0 ended its session ({}) while {} OPER attempts kept the state lock busy for {} ms; afterwards it is still listed: `{}` / `{}`", how, per * (nconn - 1), busy_ms, ison, names),
+        ));
     }
     Ok(())
 }
